@@ -73,7 +73,7 @@ static int gnutls_sign_sha_pem(jwt_t *jwt, char **out, unsigned int *len,
 	/* For EC handling. */
 	int r_padding = 0, s_padding = 0, r_out_padding = 0,
 		s_out_padding = 0;
-	gnutls_privkey_t privkey;
+	gnutls_privkey_t privkey = NULL;
 	size_t out_size;
 	gnutls_datum_t sig_dat, r, s;
 	gnutls_digest_algorithm_t alg;
@@ -257,7 +257,7 @@ static int gnutls_verify_sha_pem(jwt_t *jwt, const char *head,
 		head_len
 	};
 	gnutls_datum_t sig_dat = { NULL, 0 };
-	gnutls_pubkey_t pubkey;
+	gnutls_pubkey_t pubkey = NULL;
 	int alg, ret = 0;
 
 	if (gnutls_pubkey_init(&pubkey))
